@@ -1,13 +1,6 @@
 // std string / iterator functions used by src/label.rs: TRUSTED CONTRACTS (specified, not verified). Each states what the
 // Rust documentation of the function says, over vstd's `str` view (`s@: Seq<char>`) and vstd's prophetic iterator model.
 
-/// `FromStr` is declared to Verus (the impl for Label is the function under contract)
-#[verifier::external_trait_specification]
-pub trait ExFromStr: Sized {
-    type ExternalTraitSpecificationFor: core::str::FromStr;
-    type Err;
-    fn from_str(s: &str) -> Result<Self, Self::Err>;
-}
 #[verifier::external_type_specification]
 #[verifier::external_body]
 pub struct ExParseIntError(core::num::ParseIntError);
